@@ -11,8 +11,8 @@ for line in (root / "SWEEP.txt").read_text().splitlines():
         continue
     name, prop, rc, clauses = m.groups()
     rows.setdefault(name, []).append((prop, rc == "1", [c for c in clauses.split(";") if c]))
-print("| seeded change | needs | check | caught by |")
-print("|---|---|---|---|")
+print("| seeded change (seeded/<name>/: patch.diff, demo_test.go, notes.md) | check run | caught by (clauses; `corr` = correspondence with the model broke) |")
+print("|---|---|---|")
 for name in sorted(rows):
     metap = root / name / "meta.json"
     meta = json.loads(metap.read_text())
@@ -29,5 +29,5 @@ for name in sorted(rows):
         m = re.search(r"(?is)(?:what (?:is|it) need(?:s|ed)[^\n]*\n+|needs?[^\n]*manifest[^\n]*\n+)(.{20,260}?)(?:\n\n|\n#|\Z)", t)
         if m:
             need = " ".join(m.group(1).split())[:200]
-    caught = "; ".join(f"{p}: {', '.join(x.replace('prop ', '').replace('obligation GoHeader.', 'theorem ').strip() or 'correspondence' for x in c)}" for p, c in det) or "**not caught**"
-    print(f"| `{name}` | {need} | {'/'.join(p for p, _, _ in rows[name])} | {caught} |")
+    caught = "; ".join(f"{p}: {', '.join((x.replace('prop ', '').replace('obligation GoHeader.', 'theorem ').strip() if x.strip() != 'corr' else 'corr') for x in c)}" for p, c in det) or "**not caught**"
+    print(f"| `{name}` | {'/'.join(p for p, _, _ in rows[name])} | {caught} |")
